@@ -400,6 +400,21 @@ fn pair_eq_free_order_differs() {
     check_eq(3, 4);
 }
 
+/// equality looks at the free list's *contents*, not at the ring buffer's physical layout: an
+/// allocator whose free list has wrapped equals its clone (whose free list is laid out afresh)
+#[kani::proof]
+#[kani::unwind(26)]
+fn pair_eq_wrapped_free_list_equals_clone() {
+    let idb = ident(1);
+    let idref = unsafe { idb.as_ref() };
+    let map: HashMap<archetype::IdentifierRef<R>, archetype::IdentifierRef<R>, FnvBuildHasher> = HashMap::with_hasher(FnvBuildHasher::default());
+    let src = build_wrapped(idref);
+    let c = unsafe { src.clone(&map) };
+    assert!(same_slots_and_free(&c, &src));
+    assert!(src == c, "C16: a clone compares equal to the original (wrapped free list)");
+    assert!(c == src, "C16: symmetric");
+}
+
 #[kani::proof]
 #[kani::unwind(26)]
 fn pair_eq_small() {
